@@ -112,6 +112,10 @@ func (c *Client) OnData(l *simnet.Link, b []byte) {
 		}
 		rep.Frame = frm
 		stream := frm.Header.StreamId
+		if frm.Header.OpCode != primitive.OpCodeEvent && frm.Header.Version != c.Version && !c.Hostile && !c.TolerateGarbage {
+			// (events are another matter: the proxy frames them in the cluster's version, DESIGN section 10)
+			w.Violate("client-stream", "response-in-another-protocol-version", fmt.Sprintf("%s speaks %s but received a %v response whose header says %s (stream %d)", c, versionName(c.Version), frm.Header.OpCode, versionName(frm.Header.Version), stream))
+		}
 		if frm.Header.OpCode == primitive.OpCodeEvent {
 			c.Events = append(c.Events, frm)
 			w.Logf("%s: <- EVENT %v", c, frm.Body.Message)
